@@ -20,6 +20,12 @@ def _all_const(args):
     return all(is_const(a) for a in args)
 
 
+def _scalar_int_index(i):
+    if isinstance(i, Const):
+        return isinstance(i.value, int) and not isinstance(i.value, bool)
+    return isinstance(i, Sym) and "loopvar" in i.tags and "int" in i.tags
+
+
 def _integer_valued(v):
     """Integer constants, symbols tagged `int`, lengths / counts, and integer polynomials of those."""
     if isinstance(v, Const):
@@ -245,6 +251,9 @@ def mk_app(fn, args=(), kw=()):
                 and isinstance(const_of(base.args[1].items[1]), int) and not isinstance(idx, Tup) and idx != Const(None) and idx != Const(Ellipsis):
             # a column first, then rows: A[:, c][i] = A[i, c] for every kind of row index i (integer, slice, mask, index array)
             return mk_app("getitem", [base.args[0], Tup([idx, base.args[1].items[1]])])
+        if isinstance(base, App) and base.fn == "getitem" and len(base.args) == 2 and _scalar_int_index(base.args[1]) and _scalar_int_index(idx):
+            # two scalar integer subscripts in a row are one two-axis subscript: A[j][0] = A[j, 0]
+            return mk_app("getitem", [base.args[0], Tup([base.args[1], idx])])
         args = [base, idx]
         if isinstance(base, App) and base.fn == "getitem" and len(base.args) == 2 and isinstance(base.args[1], Tup) and len(base.args[1].items) == 2:
             # inserting a unit axis and taking it out again: x[:, None][:, 0] = x ; t[None, :][0] = t ; t[None, None][0] = t[None]
